@@ -21,6 +21,7 @@ type cval struct {
 	pkg   *types.Package // package qualifier
 	ns    string         // "ghost" namespace
 	aggr  bool           // term is the address of an aggregate (struct-valued field)
+	cell  bool           // a captured variable: its content is read in the state the expression is evaluated in
 }
 
 type cenv struct {
@@ -220,6 +221,11 @@ func (e *cenv) ident(name string) cval {
 		}
 	}
 	if v, ok := e.vars[name]; ok {
+		if v.cell && v.addr != nil {
+			r := e.readAddr(v.addr)
+			r.cell = true
+			return r
+		}
 		return v
 	}
 	switch name {
